@@ -943,6 +943,11 @@ namespace sim
 			void close(boost::system::error_code& ec);
 			void close();
 
+			// (re-)opening closes the acceptor first, as an acceptor: it stops
+			// listening and forgets the connections queued on it
+			void open(tcp protocol, boost::system::error_code& ec);
+			void open(tcp protocol);
+
 			// private interface
 
 			// implements sink
